@@ -114,7 +114,52 @@ def run_c36(prop):
     return v.finish()
 
 
+def run_c38(prop):
+    quick = vlib.tier() != "thorough"
+    v = Verdict(prop, "model_checking")
+    v.rule = ("case = history of 40 (thorough 60) coordinator operations (register, deregister, heartbeat, ageing, deploy, group removal, connector create/update/delete, "
+              "health sweep with failover) on a single-node Raft coordinator, each followed by sync_from_raft; non-trivial = contains a deploy; distinct by hash")
+    v.assumptions = ["single-node Raft (real openraft, MemStore, state machine); the follower view is the replicated state itself, checked by C35/C37",
+                     "the health loop's body is mirrored call by call (it is a closure inside the CLI's main.rs)",
+                     "drain / manual migrate / rebalance are not driven (their HTTP choreography needs a fuller mock worker)"]
+    w = workdir("raft38")
+    base = "CONSTANTS Faithful = %s\nMaxLen = %d\nINIT Init\nNEXT Next\n"
+    r = tlc("CoordSync", base % ("FALSE", 6 if quick else 8) + "INVARIANT InSync\nCHECK_DEADLOCK FALSE\n", "cs_ideal", workers=8, timeout=3000)
+    if r.error or r.violated:
+        raise vlib.ToolError("CoordSync ideal: %s %s" % (r.error, r.violated))
+    v.add_tlc(r, "CoordSync: replicating every change keeps sync_from_raft a no-op (InSync)")
+    r0 = tlc("CoordSync", base % ("TRUE", 6) + "INVARIANT InSync\nCHECK_DEADLOCK FALSE\n", "cs_faith", workers=4, timeout=3000)
+    if r0.violated != "InSync":
+        raise vlib.ToolError("CoordSync faithful expected to violate InSync: %s" % (r0.error or r0.violated))
+    v.notes.append("faithful model (what the handlers replicate today) violates InSync at design level")
+    L = 40 if quick else 60
+    r = tlc("CoordSync", base % ("TRUE", L) + "INVARIANT Case\nCHECK_DEADLOCK FALSE\n", "cs_gen", workers=1, timeout=3000,
+            simulate=(14 if quick else 150), depth=L + 1, tlc_seed=vlib.seed())
+    if r.error:
+        raise vlib.ToolError("CoordSync GEN: " + r.error)
+    allc = extract_cases(r.stdout)
+    seen, cases = set(), []
+    for c in allc:
+        key = str([h["a"] for h in c["hist"][:-1]])
+        if key not in seen:
+            seen.add(key)
+            cases.append(c)
+    ops = {h["a"]["op"] for c in cases for h in c["hist"]}
+    if not {"register", "deregister", "heartbeat", "age", "deploy", "delete_group", "connector", "sweep"} <= ops:
+        raise vlib.ToolError("CoordSync GEN missed operations: %s" % sorted(ops))
+    v.add_tlc(r, "CoordSync GEN: %d histories of %d operations" % (len(cases), L))
+    cp, rp = os.path.join(w, "cases.ndjson"), os.path.join(w, "report.json")
+    write_ndjson(cp, cases)
+    run_harness("vhraft", ["sync-replay", cp, rp], features="persistent", timeout=3000)
+    rep = load_report(rp)
+    v.add_report(rep)
+    v.notes.append("counters: %s" % rep["counters"])
+    return v.finish()
+
+
 def run(prop, replay=None):
+    if prop == "C38":
+        return run_c38(prop)
     if prop == "C35":
         return run_c35(prop)
     if prop == "C36":
